@@ -184,6 +184,7 @@ int main(int argc, char ** argv)
             /* capture the program's stdout in a temp file */
             char tmpl[] = "/var/tmp/bcdump.XXXXXX";
             int tfd = mkstemp(tmpl);
+            unlink(tmpl);   /* the fd keeps it alive; nothing is left behind if the run exits or dies */
             fflush(stdout);
             int saved = dup(1);
             dup2(tfd, 1);
@@ -201,7 +202,7 @@ int main(int argc, char ** argv)
             fprintf(out, "OUT ");
             { unsigned char b[4096]; ssize_t k; while ((k = read(tfd, b, sizeof b)) > 0) for (ssize_t j = 0; j < k; j++) fprintf(out, "%02x", b[j]); }
             fprintf(out, "\n");
-            close(tfd); unlink(tmpl);
+            close(tfd);
             if (peak_only) fprintf(out, "PEAK sp=%d maxdepth=%d steps=%lu\n", peak_sp, peak_frames, steps);
             if (ret == 0)
             {
